@@ -75,6 +75,9 @@ def gen_doc(r, with_ext):
                              {"type": "object", "properties": {"t": {"type": "string", "enum": ["B"]},
                                                                 "w": {"$ref": "#/definitions/Kind"}}, "required": ["t", "w"]}]},
     }
+    # a definition that is only a reference to Kind, and an untagged union over it (both proxy Kind's impls)
+    defs["KindAlias"] = {"$ref": "#/definitions/Kind"}
+    defs["KindOrNum"] = {"oneOf": [{"$ref": "#/definitions/Kind"}, {"type": "integer"}]}
     if r.random() < 0.5:
         defs["Pair"] = {"type": "array", "items": [{"type": "string"}, {"$ref": "#/definitions/Kind"}], "minItems": 2, "maxItems": 2}
     if with_ext:
@@ -274,6 +277,78 @@ def dir_state(d):
             p = os.path.join(root, fn)
             out[os.path.relpath(p, d)] = util.sha(open(p, "rb").read())
     return out
+
+
+def macro_rebuilds(wd, mods, K):
+    """Expand the same import_types! invocations in K fresh rustc processes.
+    mods: {module name: (options, document)}. Returns a list (one entry per build) of {module: token text}."""
+    mdir = os.path.join(wd, "macrocrate")
+    shutil.rmtree(mdir, ignore_errors=True)
+    os.makedirs(os.path.join(mdir, "src"))
+    os.makedirs(os.path.join(mdir, "schemas"))
+    adir = os.path.join(wd, "aliases")
+    shutil.rmtree(adir, ignore_errors=True)
+    dep_lines = []
+    for a in CRATE_ALIASES:
+        if a == "vrt":
+            continue
+        ad = os.path.join(adir, a)
+        os.makedirs(os.path.join(ad, "src"))
+        open(os.path.join(ad, "Cargo.toml"), "w").write(
+            '[package]\nname = "%s"\nversion = "0.0.0"\nedition = "2021"\npublish = false\n\n[dependencies]\n'
+            'vrt = { path = "%s" }\n' % (a, VRT))
+        open(os.path.join(ad, "src", "lib.rs"), "w").write("pub mod support { pub use vrt::support::*; }\n")
+        dep_lines.append('"%s" = { path = "%s" }' % (a, ad))
+    open(os.path.join(mdir, "Cargo.toml"), "w").write("""[package]
+name = "c12macro"
+version = "0.0.0"
+edition = "2021"
+publish = false
+
+[workspace]
+
+[dependencies]
+typify = { path = "%s/typify" }
+serde = { version = "1.0.219", features = ["derive"] }
+serde_json = "1.0.140"
+vrt = { path = "%s" }
+%s
+""" % (util.REPO, VRT, "\n".join(dep_lines)))
+    shutil.copy(os.path.join(util.REPO, "Cargo.lock"), os.path.join(mdir, "Cargo.lock"))
+    shutil.copy(os.path.join(util.REPO, "rust-toolchain.toml"), os.path.join(mdir, "rust-toolchain.toml"))
+    lib = ["#![allow(warnings)]"]
+    for name, (o, doc) in mods.items():
+        json.dump(doc, open(os.path.join(mdir, "schemas", name + ".json"), "w"))
+        lib.append("pub mod %s {\n%s\n}" % (name, macro_invocation(o, "schemas/%s.json" % name)))
+    builds = []
+    for k in range(K):
+        # rewriting the source makes cargo start a new rustc (and with it a new proc-macro process state)
+        open(os.path.join(mdir, "src", "lib.rs"), "w").write("\n".join(lib) + "\n// build %d\n" % k)
+        log = os.path.join(wd, "macro.hooks.%d.log" % k)
+        if os.path.exists(log):
+            os.remove(log)
+        env = util.cargo_env({"CARGO_TARGET_DIR": TARGET_MACRO, "TYPIFY_VERIF_LOG": log})
+        rc, so, se, dt = util.run(["cargo", "check", "--offline", "-q", "--message-format=json"], cwd=mdir, env=env, timeout=3000)
+        streams = {}
+        if os.path.exists(log):
+            for line in open(log):
+                try:
+                    ev = json.loads(line)
+                except Exception:
+                    continue
+                if ev.get("k") == "macro_stream":
+                    streams[os.path.basename(ev["d"]["schema"])[:-5]] = ev["d"]["tokens"]
+        errs = []
+        for line in so.splitlines():
+            if line.startswith("{") and '"compiler-message"' in line:
+                try:
+                    mm = json.loads(line)
+                except Exception:
+                    continue
+                if mm["message"].get("level") == "error":
+                    errs.append((mm["message"].get("code") or {}).get("code") or mm["message"].get("message", "")[:80])
+        builds.append({"rc": rc, "streams": streams, "errors": sorted(set(map(str, errs)))})
+    return builds
 
 
 def item_map_from_facts(facts):
